@@ -169,13 +169,22 @@ static std::string cmp_obj(const std::string& vx, const std::string& vy)
     std::size_t h1 = hash(x), h2 = x.hash(), h3 = nitro::lang::hash_wrapper<T>()(x);
     if (h1 != h2 || h1 != h3)
         return "hash-entry-points-differ";
-    return "lh=" + lx.str() + "/" + ly.str() + " hx=" + hx(h1) + " hy=" + hx(hash(y)) + " ops=" + ops;
+    // the same object on both sides (x op x) must behave like two equal values
+    std::string self;
+    self += (x != x) ? "1" : "0";
+    self += (x == x) ? "1" : "0";
+    self += (x < x) ? "1" : "0";
+    self += (x > x) ? "1" : "0";
+    self += (x <= x) ? "1" : "0";
+    self += (x >= x) ? "1" : "0";
+    return "lh=" + lx.str() + "/" + ly.str() + " hx=" + hx(h1) + " hy=" + hx(hash(y)) + " ops=" + ops +
+           " self=" + self;
 }
 
 template <typename X>
 static std::string only_hash(const X& x, const X& y, Leafs& lx, Leafs& ly)
 {
-    return "lh=" + lx.str() + "/" + ly.str() + " hx=" + hx(hash(x)) + " hy=" + hx(hash(y)) + " ops=------";
+    return "lh=" + lx.str() + "/" + ly.str() + " hx=" + hx(hash(x)) + " hy=" + hx(hash(y)) + " ops=------ self=------";
 }
 
 // std::tuple / std::pair: their own operators (not nitro code) are reported as well
@@ -189,7 +198,9 @@ static std::string std_cmp(const X& x, const X& y, Leafs& lx, Leafs& ly)
     ops += (x > y) ? "1" : "0";
     ops += (x <= y) ? "1" : "0";
     ops += (x >= y) ? "1" : "0";
-    return "lh=" + lx.str() + "/" + ly.str() + " hx=" + hx(hash(x)) + " hy=" + hx(hash(y)) + " ops=" + ops;
+    return "lh=" + lx.str() + "/" + ly.str() + " hx=" + hx(hash(x)) + " hy=" + hx(hash(y)) + " ops=" + ops +
+           " self=" + std::string((x != x) ? "1" : "0") + ((x == x) ? "1" : "0") + ((x < x) ? "1" : "0") +
+           ((x > x) ? "1" : "0") + ((x <= x) ? "1" : "0") + ((x >= x) ? "1" : "0");
 }
 
 template <typename T>
